@@ -432,4 +432,11 @@ theorem w_nullable_exclusive_bounds :
     accepts [] 3 s (.num (.int 0)) = false ∧ accepts [] 3 s (.num (.int 10)) = false ∧
     accepts [] 3 s (.num (.int 5)) = true ∧ accepts [] 3 s .null = true := by decide
 
+/-- **tie**: nothing but the ABSENCE of rules keeps a field's rules from being translated or its `required` flag from
+being read: the early returns that precede the translation test nil-ness only and make no call — no option, kind or
+name of the field is consulted (regenerated from `extractValidationConstraints` / `checkIfFieldRequired` and the
+helper that fetches the rules, if any; seed C19-r8-1 returned early for every `ignore` other than unspecified, which
+dropped the constraints of `IGNORE_IF_ZERO_VALUE` fields whose rules still bind every non-zero value). -/
+theorem rules_read_whenever_present : Gen.OaRules.guardCalls = [] := by decide
+
 end Sebuf.C19
